@@ -914,7 +914,7 @@ impl Display for Token {
     fn fmt(&self, f: &mut Formatter) -> std::fmt::Result {
         match self {
             Token::Align { tag, value } => {
-                write!(f, "{}{}", format!("{}", tag).to_uppercase(), value)
+                write!(f, "{}{}", tag.map(|t| t.to_string().to_uppercase()), value)
             }
             Token::Assert {
                 tag,
@@ -928,7 +928,7 @@ impl Display for Token {
                 write!(
                     f,
                     "{}{}{}",
-                    format!("{}", tag).to_uppercase(),
+                    tag.map(|t| t.to_string().to_uppercase()),
                     value,
                     failure_message
                 )
@@ -943,7 +943,7 @@ impl Display for Token {
                 write!(
                     f,
                     "{}{}",
-                    format!("{}", size).to_uppercase(),
+                    size.map(|t| t.to_string().to_uppercase()),
                     format_arglist(values)
                 )
             }
@@ -952,7 +952,13 @@ impl Display for Token {
                     .as_ref()
                     .map(|c| format!("{}", c))
                     .unwrap_or_else(|| "".to_string());
-                write!(f, "{}{}{}", format!("{}", tag).to_uppercase(), id, value)
+                write!(
+                    f,
+                    "{}{}{}",
+                    tag.map(|t| t.to_string().to_uppercase()),
+                    id,
+                    value
+                )
             }
             Token::Eof(triv) => {
                 write!(f, "{}", format_trivia(&triv.trivia))
@@ -972,13 +978,15 @@ impl Display for Token {
                 else_,
             } => {
                 let else_ = match (tag_else, else_) {
-                    (Some(tag), Some(e)) => format!("{}{}", format!("{}", tag).to_uppercase(), e),
+                    (Some(tag), Some(e)) => {
+                        format!("{}{}", tag.map(|t| t.to_string().to_uppercase()), e)
+                    }
                     _ => "".to_string(),
                 };
                 write!(
                     f,
                     "{}{}{}{}",
-                    format!("{}", tag_if).to_uppercase(),
+                    tag_if.map(|t| t.to_string().to_uppercase()),
                     value,
                     if_,
                     else_
@@ -1068,7 +1076,13 @@ impl Display for Token {
                 expr,
                 block,
             } => {
-                write!(f, "{}{}{}", format!("{}", tag).to_uppercase(), expr, block)
+                write!(
+                    f,
+                    "{}{}{}",
+                    tag.map(|t| t.to_string().to_uppercase()),
+                    expr,
+                    block
+                )
             }
             Token::MacroDefinition {
                 tag,
@@ -1081,7 +1095,7 @@ impl Display for Token {
                 write!(
                     f,
                     "{}{}{}{}{}{}",
-                    format!("{}", tag).to_uppercase(),
+                    tag.map(|t| t.to_string().to_uppercase()),
                     id,
                     lparen,
                     format_arglist(args),
@@ -1105,7 +1119,13 @@ impl Display for Token {
                     Some(i) => format!("{}", i),
                     None => "".to_string(),
                 };
-                write!(f, "{}{}{}", format!("{}", tag).to_uppercase(), id, block)
+                write!(
+                    f,
+                    "{}{}{}",
+                    tag.map(|t| t.to_string().to_uppercase()),
+                    id,
+                    block
+                )
             }
             Token::Test { tag, id, block } => {
                 write!(f, "{}{}{}", tag.map(|t| t.to_uppercase()), id, block)
@@ -1121,7 +1141,7 @@ impl Display for Token {
                     tag.map(|t| t.to_uppercase()),
                     encoding
                         .as_ref()
-                        .map(|t| format!("{}", t).to_uppercase())
+                        .map(|t| t.map(|e| e.to_string().to_uppercase()).to_string())
                         .unwrap_or_default(),
                     text,
                 )
@@ -1154,7 +1174,7 @@ impl Display for Token {
                 write!(
                     f,
                     "{}{}{}{}",
-                    format!("{}", ty).to_uppercase(),
+                    ty.map(|t| t.to_string().to_uppercase()),
                     id,
                     eq,
                     value
